@@ -14,10 +14,9 @@ Calendar: `c05_jdn_is_gregorian` (the Doggett formula of the Go code is `rataDie
 proved by arithmetic, not by enumerating a cycle), `c05_civil_inverse`, `c05_micro_inverse`, `c05_duration_is_micros`,
 `c05_epochs`, `c05_no_overflow`.
 
-VIOLATED by the code as it is:
-* `c05_encode_matches_spec_datetime` before 1900-01-01 with a time of day (`…_counterexample`, `…_partial`);
-* `c05_encode_matches_spec_unitext`: not UTF-16LE — even "AB" is laid out `41 42 00 00` (`…_counterexample`,
-  `…_partial` for a single code point ≤ U+00FF); `c05_decode_matches_spec_unitext_counterexample`.
+RESULT (code after the repairs c404295, 20c1efa, 8cf068f, 7a20ae8): every family matches the reference layout in both
+directions on its whole domain — datetime also before 1900-01-01, unitext as UTF-16LE for all Unicode scalar values
+(decode: strings not ending in U+0000, `GoValue` trims trailing NULs).  Nothing is partial.
 -/
 import Dblib.Model.Value
 import Dblib.Model.ValueSpec
@@ -277,11 +276,6 @@ theorem civilTime_range (y m d ns : Nat) (hv : Spec.validDate y m d) (hy : y ≤
     · omega
     · have := (isLeap_iff (y : Int)).1 hl; omega
 
-theorem day_ge_1900 (y m d : Nat) (hy : 1900 ≤ y) (hd : 1 ≤ d) : 693595 ≤ daysFromCivil y m d := by
-  obtain ⟨a, b, c, e, hb, hc, he, hyy⟩ := year_decomp (y : Int)
-  rw [daysFromCivil, hyy, ys_decomp a b c e hb hc he]
-  omega
-
 /-- **`DurationFromDateTime` counts microseconds since 0000-01-01** (year 0 has 366 days): for every valid date of
 the years 1 … 9999 and every time of day it is `(rataDie + 365) days + µs of the day`. -/
 theorem c05_duration_is_micros (y m d ns : Nat) (hv : Spec.validDate y m d) (hns : ns < nsPerDay) :
@@ -334,7 +328,7 @@ theorem c05_encode_matches_spec_date (y m d : Nat) (hv : Spec.validDate y m d) (
     bytes Types.DATE (.time (civilTime y m d 0)) 4 = .ok (Spec.date y m d) ∧
     bytes Types.DATEN (.time (civilTime y m d 0)) 4 = .ok (Spec.date y m d) := by
   have hr := civilTime_range y m d 0 hv hy (by decide)
-  have henc := enc_date (civilTime y m d 0) hr.2.2 (year_ok _ hr) (Or.inr (Nat.zero_div 1000))
+  have henc := enc_date (civilTime y m d 0) hr.2.2 (year_ok _ hr)
   rw [leEncode4_eq_intLE, ← days1900_eq y m d hv] at henc
   exact ⟨by rw [bytes_DATE, henc]; rfl, by rw [bytes_DATEN, henc]; rfl⟩
 
@@ -375,32 +369,23 @@ theorem c05_decode_matches_spec_time (k : Nat) (hk : k < 25920000) :
   refine ⟨by rw [e, goValue_TIME, leEncode_length, hdec]; rfl, by rw [e, goValue_TIMEN, hdec]; rfl, ?_⟩
   rw [tickOf_nearest, nearestTick_tickNs]
 
-/-- datetime from 1900-01-01 on (or at midnight) = int32 days since 1900-01-01, uint32 ticks since midnight -/
-theorem c05_encode_matches_spec_datetime_partial (y m d ns : Nat) (hv : Spec.validDate y m d) (hy : y ≤ 9999)
-    (hns : ns < nsPerDay) (h1900 : 1900 ≤ y ∨ ns / 1000 = 0) :
+/-- **datetime = int32 days since 1900-01-01, uint32 ticks of 1/300 s since midnight** — every day 0001-01-01 …
+9999-12-31 (negative day counts before 1900) × every time of day -/
+theorem c05_encode_matches_spec_datetime (y m d ns : Nat) (hv : Spec.validDate y m d) (hy : y ≤ 9999)
+    (hns : ns < nsPerDay) :
     bytes Types.DATETIME (.time (civilTime y m d ns)) 8 = .ok (Spec.dateTime y m d (ns / 1000)) ∧
     bytes Types.DATETIMEN (.time (civilTime y m d ns)) 8 = .ok (Spec.dateTime y m d (ns / 1000)) := by
   have hr := civilTime_range y m d ns hv hy hns
-  have hd : 693595 ≤ (civilTime y m d ns).day ∨ (civilTime y m d ns).ns / 1000 = 0 := by
-    rcases h1900 with h | h
-    · exact Or.inl (day_ge_1900 y m d h hv.2.2.2.1)
-    · exact Or.inr h
-  have henc := enc_datetime (civilTime y m d ns) hns (year_ok _ hr) hd
+  have henc := enc_datetime (civilTime y m d ns) hns (year_ok _ hr)
   have hk := nearestTick_le ns hns
   rw [leEncode4_eq_intLE, show (civilTime y m d ns).day = (civilTime y m d 0).day from rfl, ← days1900_eq y m d hv,
     show (civilTime y m d ns).ns = ns from rfl, ← tick_spec,
     toU32_nat _ (by rw [tickOf_nearest]; omega), leEncode_eq_uintLE] at henc
   exact ⟨by rw [bytes_DATETIME, henc]; rfl, by rw [bytes_DATETIMEN, henc]; rfl⟩
 
-/- Full statement (FALSE for the code as it is): the same without `h1900`.
-   Witness: 1899-12-31 12:00:00 must be `ff ff ff ff 00 c1 c5 00` (day −1, tick 12 960 000); `Bytes` produces
-   `00 00 00 00 00 3f 3a ff` (day 0, tick −12 960 000 as uint32) (`val enc 3d 8 t:1899-12-31-12-0-0-0`). -/
-theorem c05_encode_matches_spec_datetime_counterexample :
-    Spec.validDate 1899 12 31 ∧
-    Spec.dateTime 1899 12 31 43200000000 = [0xff, 0xff, 0xff, 0xff, 0x00, 0xc1, 0xc5, 0x00] ∧
-    bytes Types.DATETIME (.time (civilTime 1899 12 31 43200000000000)) 8
-      = .ok [0x00, 0x00, 0x00, 0x00, 0x00, 0x3f, 0x3a, 0xff] := by
-  decide +kernel
+-- the former counterexample: 1899-12-31 12:00:00 is day −1, tick 12 960 000
+example : Spec.validDate 1899 12 31 ∧
+    Spec.dateTime 1899 12 31 43200000000 = [0xff, 0xff, 0xff, 0xff, 0x00, 0xc1, 0xc5, 0x00] := by decide +kernel
 
 /-- a server's datetime (any day 0001 … 9999, tick `k`) decodes to that day at `k/300 s` truncated to the
 millisecond, whose nearest tick is `k` -/
@@ -433,7 +418,7 @@ theorem c05_encode_matches_spec_smalldatetime (y m d ns : Nat) (hv : Spec.validD
     bytes Types.DATETIMEN (.time (civilTime y m d ns)) 4 = .ok (Spec.smallDateTime y m d (ns / 1000)) := by
   have hy := year_ok (civilTime y m d ns) ⟨by show (0 : Int) ≤ daysFromCivil y m d; omega,
     by show daysFromCivil y m d < 3652059; omega, hns⟩
-  have henc := enc_shortdate (civilTime y m d ns) hns hy hd.1
+  have henc := enc_shortdate (civilTime y m d ns) hns hy
   have e1 : toU 16 ((civilTime y m d ns).day - 693595) = (Spec.daysSince1900 y m d).toNat := by
     rw [days1900_eq y m d hv]
     show toU 16 (daysFromCivil y m d - 693595) = (daysFromCivil y m d - 693595).toNat
@@ -503,34 +488,29 @@ theorem c05_decode_matches_spec_bigtime (us : Nat) (hus : us < 86400000000) :
 
 /-! ## unitext -/
 
-/- Full statement (FALSE for the code as it is): for every list `cps` of Unicode scalar values
-   `bytes Types.UNITEXT (.str (utf8EncAll cps)) l = .ok (Spec.unitext cps)` (UTF-16LE).
-   Witness: "AB" is laid out `41 42 00 00` instead of `41 00 42 00` (`val enc ae 0 str:4142`). -/
-theorem c05_encode_matches_spec_unitext_counterexample :
-    Spec.unitext [0x41, 0x42] = [0x41, 0x00, 0x42, 0x00] ∧
-    bytes Types.UNITEXT (.str (utf8EncAll [0x41, 0x42])) 0 = .ok [0x41, 0x42, 0x00, 0x00] := by
-  decide +kernel
+/-- **unitext = UTF-16LE**: every string of Unicode scalar values (all planes) is laid out as the little-endian
+UTF-16 code units -/
+theorem c05_encode_matches_spec_unitext (cps : List Nat) (l : Int) (h : ∀ c ∈ cps, IsScalar c) :
+    bytes Types.UNITEXT (.str (utf8EncAll cps)) l = .ok (Spec.unitext cps) := by
+  rw [bytes_UNITEXT, utf8Dec_encAll cps h, unitextWrite_zeros, unitext_eq cps h]
 
-/- Full statement (FALSE): `goValue Types.UNITEXT (Spec.unitext cps) = .ok (.str (utf8EncAll cps))`.
-   Witness: the UTF-16LE bytes of "AB" decode to "A\0B" (`val dec ae 41004200` answers `ok str:410042`). -/
-theorem c05_decode_matches_spec_unitext_counterexample :
-    goValue Types.UNITEXT (Spec.unitext [0x41, 0x42]) = .ok (.str [0x41, 0x00, 0x42]) ∧
-    utf8EncAll [0x41, 0x42] = [0x41, 0x42] := by
-  decide +kernel
+/-- the UTF-16LE bytes of a non-empty string that does not end in U+0000 decode to that string -/
+theorem c05_decode_matches_spec_unitext (cps : List Nat) (hne : cps ≠ []) (h : ∀ c ∈ cps, IsScalar c)
+    (hlast : cps.getLast? ≠ some 0) :
+    goValue Types.UNITEXT (Spec.unitext cps) = .ok (.str (utf8EncAll cps)) := by
+  have hlen : 0 < cps.length := List.length_pos_iff.2 hne
+  have hul : 0 < (utf16EncAll cps).length := by
+    have := congrArg List.length (utf16Dec_encAll cps h)
+    cases hu : utf16EncAll cps with
+    | nil => rw [hu] at this; simp [utf16Dec] at this; omega
+    | cons a r => simp
+  rw [unitext_eq cps h, goValue_UNITEXT, unitsLE_length, if_neg (by omega), if_neg (by omega),
+    unitsOfLE_unitsLE _ (utf16EncAll_lt cps), utf16Dec_encAll cps h,
+    trimRightNul_id _ (utf8EncAll_last cps h hlast)]
 
-/-- UNITEXT is UTF-16LE only for a single code point ≤ U+00FF -/
-theorem c05_encode_matches_spec_unitext_partial (c : Nat) (l : Int) (h : c < 256) :
-    bytes Types.UNITEXT (.str (utf8EncAll [c])) l = .ok (Spec.unitext [c]) := by
-  have hall : ∀ x ∈ [c], x < 256 := by simp [h]
-  rw [bytes_UNITEXT, utf8Dec_encAll_latin1 [c] hall, utf16EncAll_latin1 [c] hall]
-  have hw := unitextWrite_latin1 [c] hall [] 2 (by simp)
-  simp only [List.length_nil, List.nil_append] at hw
-  rw [show [c].length * 2 = 2 from rfl, hw]
-  have : c < 0x10000 := by omega
-  simp [Spec.unitext, Spec.utf16, this, Spec.uintLE, List.range_succ_eq_map, Spec.byteAt, zeros]
-  have h0 : c / 256 = 0 := by omega
-  have h1 : c % 256 = c := by omega
-  simp [h0, h1]
+-- "AB" → 41 00 42 00; U+1F600 → D83D DE00 → 3d d8 00 de
+example : Spec.unitext [0x41, 0x42] = [0x41, 0x00, 0x42, 0x00] ∧ Spec.unitext [0x1F600] = [0x3d, 0xd8, 0x00, 0xde] := by
+  decide +kernel
 
 /-! ## no overflow -/
 
